@@ -79,6 +79,19 @@ def check(facts, rep, tier, cfg):
                             ok1 = True
                             rep.analysed(b)
                             rep.ok("C16.R1", "pong-refreshes-timestamp", where, "on Message::Pong: last_pong <- T::now()")
+                            # necessity: EVERY Pong refreshes the timestamp (no flag / counter / filter between the Pong arm and the store)
+                            gbb = dom[0][0]
+                            gpg = guard_at(facts, b, tr, gbb)
+                            pong_succ = [s2 for s2, v2 in gpg.edges if v2 == "Pong"]
+                            rets_ = [r for r in range(len(b.blocks)) if b.term(r)["k"] == "Return"]
+                            skip = [r for ps in pong_succ for r in rets_ if r in b.reachable_from(ps, cut={bi})]
+                            if skip:
+                                rep.bad("C16.R1", "every-pong-refreshes", where,
+                                        "a Pong can be handled without refreshing the last-pong timestamp (a path from the Pong arm to the return "
+                                        "avoids the store): answers the filter rejects leave the timestamp stale, and a peer that answered every "
+                                        "ping within the timeout is declared dead")
+                            else:
+                                rep.ok("C16.R1", "every-pong-refreshes", where, "every path of the Pong arm passes the store")
                         else:
                             rep.bad("C16.R1", "pong-refreshes-timestamp", where, "last_pong_timestamp is written with `%s` / not under the Pong arm" % fmt(v))
     if not ok1:
